@@ -1,0 +1,27 @@
+//go:build verif
+
+package bigendian
+
+// Contracts for govc (comment-only; compiled only with -tags verif).
+
+//@ func EncodeBytesUint
+//@   arith bv
+//@   props C02 C08
+//@   returns (out, err)
+//@   requires 0 <= size && size <= 8
+//@   ensures err == nil ==> n >= 0 && (size < 8 ==> uint64(n) < uint64(1) << (8*uint64(size)))
+//@   ensures err == nil ==> len(out) == size
+//@   ensures err == nil ==> forall i int :: 0 <= i && i < size ==> out[i] == byte(n >> (8*uint64(size-1-i)))
+//@   ensures err != nil ==> n < 0 || (size < 8 && uint64(n) >= uint64(1) << (8*uint64(size)))
+//@   assigns nothing
+//@   loop 0:
+//@     invariant forall k int :: 0 <= k && k < i ==> bs[k] == byte(n >> (8*uint64(size-1-k)))
+//@     invariant len(bs) == size
+//@     decreases size - i
+
+//@ func Decode3BytesUint
+//@   arith bv
+//@   props C02
+//@   ensures result == int(b[0])*65536 + int(b[1])*256 + int(b[2])
+//@   ensures 0 <= result && result < 16777216
+//@   assigns nothing
